@@ -100,6 +100,41 @@ int main(void) {
             if (ZSTD_isError(r)) printf("err %s at=%d fed=%zu\n", zv_errclass(r), failedAt, fed);
             else { ZSTD_frameHeader h; ZSTD_getFrameHeader(&h, out, ob.pos); printf("ok fed=%zu fcs=%lld\n", fed, h.frameContentSize == ZSTD_CONTENTSIZE_UNKNOWN ? -1LL : (long long)h.frameContentSize); }
             free(src); free(out);
+        } else if (!strcmp(op, "cstream")) {
+            /* cstream <id=val,...|-> <hex-src> <in-chunks csv> <out-chunks csv> <dirs e.g. ccfce> [dict-hex]
+             * ZSTD_compressStream2 under a call history; chunk lists and directive string are cycled; the frame is always finished with e_end.
+             * prints: <hex frame(s)> flushes=<consumed:produced;...> calls=<n> noprogress=<n> */
+            char* ps = strtok(NULL, " "); size_t n, dn = 0; unsigned char* in = zv_unhex(strtok(NULL, " "), &n);
+            char* ins = strtok(NULL, " "); char* outs = strtok(NULL, " "); char* dirs = strtok(NULL, " "); char* dh = strtok(NULL, " ");
+            unsigned char* d = dh ? zv_unhex(dh, &dn) : NULL;
+            size_t ic[64], oc[64]; int ni = 0, no = 0, ii = 0, oi = 0, di = 0, nd = (int)strlen(dirs); char* sv; char* t; char* save = NULL; char* kv;
+            size_t cap = ZSTD_compressBound(n) + 24 * n + (1 << 20); unsigned char* out = (unsigned char*)malloc(cap); size_t consumed = 0, produced = 0, r = 0; int calls = 0, noprog = 0;   /* every 1-byte flush costs a block (or a whole MT job) */
+            char fl[4096]; size_t fll = 0; int ended = 0; fl[0] = 0;
+            for (t = strtok_r(ins, ",", &sv); t && ni < 64; t = strtok_r(NULL, ",", &sv)) ic[ni++] = (size_t)strtoull(t, NULL, 10);
+            for (t = strtok_r(outs, ",", &sv); t && no < 64; t = strtok_r(NULL, ",", &sv)) oc[no++] = (size_t)strtoull(t, NULL, 10);
+            ZSTD_CCtx_reset(cctx, ZSTD_reset_session_and_parameters);
+            for (kv = strtok_r(ps, ",", &save); kv && !ZSTD_isError(r); kv = strtok_r(NULL, ",", &save)) { int id, val; if (sscanf(kv, "%d=%d", &id, &val) == 2) r = ZSTD_CCtx_setParameter(cctx, (ZSTD_cParameter)id, val); }
+            if (d && !ZSTD_isError(r)) r = ZSTD_CCtx_loadDictionary(cctx, d, dn);
+            while (!ZSTD_isError(r) && !ended && calls < 4000000) {
+                size_t isz = ic[ii++ % ni], osz = oc[oi++ % no]; ZSTD_inBuffer ib; ZSTD_outBuffer ob; ZSTD_EndDirective dir; char dc = dirs[di++ % nd];
+                if (isz > n - consumed) isz = n - consumed;
+                if (osz > cap - produced) osz = cap - produced;
+                dir = dc == 'f' ? ZSTD_e_flush : dc == 'e' ? ZSTD_e_end : ZSTD_e_continue;
+                if (consumed == n && isz == 0) dir = ZSTD_e_end;      /* all input delivered: finish */
+                if (dir == ZSTD_e_end && consumed + isz < n) dir = ZSTD_e_flush;                   /* only end with the last input (single frame) */
+                ib.src = in + consumed; ib.size = isz; ib.pos = 0; ob.dst = out + produced; ob.size = osz; ob.pos = 0;
+                r = ZSTD_compressStream2(cctx, &ob, &ib, dir); calls++;
+                if (ZSTD_isError(r)) break;
+                if (isz > 0 && osz > 0 && ib.pos == 0 && ob.pos == 0 && !(dir == ZSTD_e_end && r == 0)) noprog++;
+                consumed += ib.pos; produced += ob.pos;
+                if (dir == ZSTD_e_flush && r == 0 && fll + 48 < sizeof fl) fll += (size_t)sprintf(fl + fll, "%s%zu:%zu", fll ? ";" : "", consumed, produced);
+                if (dir == ZSTD_e_end && r == 0 && consumed == n) ended = 1;
+                if (ib.pos < ib.size) { ii--; }   /* re-offer what was not consumed: shrink the next chunk to the remainder */
+                if (ib.pos < ib.size) { ic[(ii) % ni] = ic[ii % ni]; }
+            }
+            if (ZSTD_isError(r)) printf("err %s calls=%d consumed=%zu\n", zv_errclass(r), calls, consumed);
+            else { zv_puthex(out, produced); printf(" flushes=%s calls=%d noprogress=%d\n", fll ? fl : "-", calls, noprog); }
+            free(in); free(out); free(d);
         } else if (!strcmp(op, "cbound")) {
             unsigned long long n = strtoull(strtok(NULL, " "), NULL, 10); size_t b = ZSTD_compressBound((size_t)n); if (ZSTD_isError(b)) printf("E\n"); else printf("%llu\n", (unsigned long long)b);
         } else if (!strcmp(op, "ccap")) {
